@@ -207,40 +207,99 @@ def _processed_test(x):
 
 
 def check_next_pos(ctx, rep, rule='T-next-pos'):
+    """get_next_pos walks the cycle of one vertex: candidates map[pos], map[map[pos]], ...; the first candidate that is back at
+    `pos` ends the search with None, the first unprocessed one is returned, processed ones are skipped.  Both loop forms are
+    accepted: (A) the loop variable holds the previous position and the candidate is map[variable] (variable starts at pos), or
+    (B) the loop variable *is* the candidate (starts at map[pos], advanced with map[candidate])."""
     b, ps = rep.explore(ctx, NEXTPOS, rule)
     if b is None:
         return
-    outcomes = {}
+
+    def nm(v, hv):
+        x = strip_upd(v)
+        for _ in range(8):
+            if x[0] == 'cast':
+                x = strip_upd(x[2])
+            elif x[0] in ('deref', 'refval') and len(x) > 1:
+                x = strip_upd(x[1])
+            else:
+                break
+        if x[0] == 'param' and x[1] == 1:
+            return 'S'
+        if x[0] == 'havoc' and hv is not None and (x[1], x[2]) == hv:
+            return 'H'
+        if x[0] == 'index' and _mentions_param(x[1], 'iteration_map'):
+            return 'M(%s)' % nm(x[2], hv)
+        if x[0] in ('call', 'pcall') and re.search(r'Index<.*>>::index$', x[1]) and len(x[2]) == 2 and _mentions_param(x[2][0], 'iteration_map'):
+            return 'M(%s)' % nm(x[2][1], hv)
+        return '?' + show(noepoch(x))[:30]
+
+    rows = set()
+    form = None
+    problems = []
     for p in ps:
-        back = None      # pos == start_pos
-        proc = None
+        lh = [e for e in p.events if e['k'] == 'loophead']
+        if not lh:
+            continue
+        pre = {l: v for l, v in lh[0].get('pre', {}).items() if strip_upd(v)[0] != 'undef'}
+        cands = [(l, nm(v, None)) for l, v in pre.items() if nm(v, None) in ('S', 'M(S)')]
+        if len(cands) != 1:
+            problems.append('loop variable not identified: %s' % {l: show(noepoch(v))[:30] for l, v in pre.items()})
+            continue
+        L, h0 = cands[0]
+        hv = (lh[0]['bb'], L)
+        f_ = 'A' if h0 == 'S' else 'B'
+        form = form or f_
+        C = 'M(H)' if f_ == 'A' else 'H'
+        back = proc = None
         for (v, c) in p.conds:
             x = strip_upd(v)
-            if x[0] == 'op' and x[1] in ('eq', 'ne') and 'iteration_map' in show(noepoch(x)):
-                back = c[1] if x[1] == 'eq' else not c[1]
+            if x[0] == 'op' and x[1] in ('eq', 'ne') and len(x) == 4:
+                names = {nm(x[2], hv), nm(x[3], hv)}
+                if names == {C, 'S'}:
+                    back = bool(c[1]) if x[1] == 'eq' else (not c[1])
+                    continue
+                problems.append('compares %s' % sorted(names))
             elif _processed_test(x):
-                proc = c[1]
+                proc = bool(c[1])
+                # what is tested: the value behind the reference at the time of the call / the index
+                tested = None
+                for e in p.calls():
+                    if e['callee'].endswith('::contains') and noepoch(strip_upd(e.get('ret', ('c', 0)))) == noepoch(x):
+                        a1 = strip_upd(e['args'][1])
+                        tested = nm(e.get('ref_vals', {}).get(1, a1), hv)
+                y = x
+                while y[0] in ('deref', 'refval') and len(y) > 1:
+                    y = strip_upd(y[1])
+                if y[0] == 'index':
+                    tested = nm(y[2], hv)
+                elif y[0] in ('call', 'pcall') and re.search(r'Index<.*>>::index$', y[1]) and len(y[2]) == 2:
+                    tested = nm(y[2][1], hv)
+                if tested != C:
+                    problems.append('tests whether %s is processed (the candidate is %s)' % (tested, C))
         if p.end == 'return':
             r = strip_upd(p.ret)
-            kind = r[2]
-            payload_ok = True
-            if kind == 'Some':
-                payload_ok = 'iteration_map' in show(noepoch(r[4][0]))
-            outcomes[(back, proc)] = (kind, payload_ok)
+            if r[0] == 'agg' and r[2] == 'Some':
+                got = nm(r[4][0], hv)
+                rows.add(('Some', back, proc, got == C))
+            elif r[0] == 'agg' and r[2] == 'None':
+                rows.add(('None', back, proc, True))
+            else:
+                problems.append('returns %s' % show(noepoch(r))[:40])
         elif p.end == 'backedge':
-            outcomes[(back, proc)] = ('continue', True)
-    exp = {(True, None): ('None', True), (False, False): ('Some', True), (False, True): ('continue', True)}
-    rep.ob(rule, 'next-unprocessed-in-group-or-None', outcomes == exp,
-           'get_next_pos must follow iteration_map from pos: back at the start -> None; an unprocessed position -> Some(it); a processed one -> keep '
-           'going. Found %s' % outcomes, loc=b.loc(b.j['line_lo']), reason='table-row')
-    # the first step starts from the given pos
-    ok = False
-    for p in ps:
-        for e in p.events:
-            if e['k'] == 'loophead':
-                pre = [show(noepoch(v)) for v in e.get('pre', {}).values()]
-                ok = ok or ('pos' in pre and pre.count('pos') >= 1)
-    rep.ob(rule, 'starts-at-pos', ok, 'the walk around a vertex must start from the given position', loc=b.loc(b.j['line_lo']), reason='provenance')
+            fin = None
+            for k, v in p.final.mem.items():
+                if k[0][0] == 'loc' and k[0][2] == L and k[1] == ():
+                    fin = nm(v, hv)
+            want = C if f_ == 'A' else 'M(H)'
+            rows.add(('continue', back, proc, fin == want))
+    exp = {('None', True, None, True), ('Some', False, False, True), ('continue', False, True, True)}
+    rep.ob(rule, 'next-unprocessed-in-group-or-None', rows == exp and not problems,
+           'get_next_pos must follow iteration_map from pos: a candidate back at the start -> None; an unprocessed candidate -> Some(it); a '
+           'processed one -> go on with iteration_map[candidate]. Found rows (outcome, back at start, processed, value ok) %s%s'
+           % (sorted(map(str, rows)), '; ' + '; '.join(sorted(set(problems))[:3]) if problems else ''), loc=b.loc(b.j['line_lo']), reason='table-row')
+    rep.ob(rule, 'starts-at-pos', form in ('A', 'B'), 'the walk around a vertex must start from the given position (first candidate '
+           'iteration_map[pos])', loc=b.loc(b.j['line_lo']), reason='provenance')
 
 
 def check_mark(ctx, rep, rule='T-mark'):
